@@ -515,8 +515,10 @@ class Interp:
             # free, i.e. identities checked there must hold as polynomial identities, which is what holding on an interval means
             from .extlib import ExtLib
             ats = list(v.p.atoms())
-            if ats and all(a[0] == "s" and a[1] not in ExtLib.INT_SYMBOLS and not a[1].startswith("@") and a[1] not in ("nx", "ny", "nz")
-                           for a in ats):
+            sizes = ("nx", "ny", "nz")
+            free = [a for a in ats if a[0] == "s" and a[1] not in ExtLib.INT_SYMBOLS and not a[1].startswith("@") and a[1] not in sizes]
+            # (grid sizes may occur as factors, e.g. dt*nu*nx^2/x_range^2 < tol: for any sizes the free inputs reach both outcomes)
+            if free and all(a[0] == "s" and (a in free or a[1] in sizes) for a in ats):
                 from .regions import CURRENT_CASE, NeedDecision
                 key = repr(v)
                 d = CURRENT_CASE[0].decision(key)
